@@ -3032,6 +3032,27 @@ class PyCdlib:
 
         return 0
 
+    def _remove_rr_ce_entry(self, rec):
+        # type: (dr.DirectoryRecord) -> int
+        """
+        An internal method to release the Rock Ridge CE entry of a record that
+        is being removed.
+
+        Parameters:
+         rec - The record to release the Rock Ridge CE entry for (if it exists).
+        Returns:
+         The number of bytes that are no longer needed (one block if this was
+         the last entry in its Continuation Block, zero otherwise).
+        """
+        if rec.rock_ridge is not None and rec.rock_ridge.dr_entries.ce_record is not None and rec.rock_ridge.ce_block is not None:
+            ce_record = rec.rock_ridge.dr_entries.ce_record
+            if self.pvd.remove_rr_ce_entry(rec.rock_ridge.ce_block,
+                                           ce_record.offset_cont_area,
+                                           ce_record.len_cont_area):
+                return self.logical_block_size
+
+        return 0
+
     def _finish_add(self, num_bytes_to_add, num_partition_bytes_to_add):
         # type: (int, int) -> None
         """
@@ -3362,6 +3383,7 @@ class PyCdlib:
         while not done:
             num_bytes_to_remove += self._remove_child_from_dr(rec,
                                                               rec.index_in_parent)
+            num_bytes_to_remove += self._remove_rr_ce_entry(rec)
 
             if rec.inode is not None:
                 found_index = None
@@ -5101,9 +5123,7 @@ class PyCdlib:
                 # child_link record because it is a 'fake' record that has no
                 # size.
 
-            if child.rock_ridge is not None and child.rock_ridge.dr_entries.ce_record is not None and child.rock_ridge.ce_block is not None:
-                child.rock_ridge.ce_block.remove_entry(child.rock_ridge.dr_entries.ce_record.offset_cont_area,
-                                                       child.rock_ridge.dr_entries.ce_record.len_cont_area)
+            num_bytes_to_remove += self._remove_rr_ce_entry(child)
 
         if joliet_path is not None:
             num_bytes_to_remove += self._rm_joliet_dir(self._normalize_joliet_path(joliet_path))
